@@ -4,6 +4,7 @@ from __future__ import annotations
 
 from typing import TYPE_CHECKING, Any
 
+from stabilize.errors import ConcurrencyError
 from stabilize.persistence.store import StoreTransaction
 
 if TYPE_CHECKING:
@@ -69,24 +70,35 @@ class PostgresTransaction(StoreTransaction):
             if task.version != 0:  # Only track tasks that were updated
                 self._staged_objects.append((task, task.version - 1))
 
-    def update_workflow_status(self, workflow: Workflow) -> None:
-        """Update workflow status within the transaction."""
-        with self._conn.cursor() as cur:
-            cur.execute(
-                """
+    def update_workflow_status(self, workflow: Workflow, expected_status: str | None = None) -> None:
+        """Update workflow status within the transaction.
+
+        With ``expected_status`` the update is a compare-and-swap on the
+        stored status and canceled flag (ConcurrencyError when it lost).
+        """
+        sql = """
                 UPDATE pipeline_executions SET
                     status = %(status)s,
                     start_time = %(start_time)s,
                     end_time = %(end_time)s
                 WHERE id = %(id)s
-                """,
-                {
-                    "id": workflow.id,
-                    "status": workflow.status.name,
-                    "start_time": workflow.start_time,
-                    "end_time": workflow.end_time,
-                },
-            )
+                """
+        params: dict[str, Any] = {
+            "id": workflow.id,
+            "status": workflow.status.name,
+            "start_time": workflow.start_time,
+            "end_time": workflow.end_time,
+        }
+        if expected_status is not None:
+            sql += " AND status = %(expected_status)s AND is_canceled = %(is_canceled)s"
+            params["expected_status"] = expected_status
+            params["is_canceled"] = bool(workflow.is_canceled)
+        with self._conn.cursor() as cur:
+            cur.execute(sql, params)
+            if expected_status is not None and cur.rowcount == 0:
+                raise ConcurrencyError(
+                    f"Workflow {workflow.id} is no longer {expected_status} (or was canceled) - status update refused"
+                )
 
     def push_message(self, message: Message, delay: float = 0) -> None:
         """Push a message to the queue within the transaction.
